@@ -60,7 +60,8 @@ ASSUMPTIONS = [
 TRUSTED = ["tools/extractors/ops.py (reads the three facts about operations from tree_schema.h, schema_compile_node.c, validation.c)",
            "tools/checks/validgen.py (schema/instance generator, mutations, XML/JSON encoders)", "tools/vlib/treegen.py", "harness/treeproto.h (tree loader and canonical dump)"]
 
-APPTAG = {"NoMandChoice": "missing-choice", "NoMin": "too-few-elements", "NoMax": "too-many-elements", "NoUniq": "data-not-unique"}
+APPTAG = {"NoMandChoice": "missing-choice", "NoMin": "too-few-elements", "NoMax": "too-many-elements", "NoUniq": "data-not-unique",
+          "NoMust": "must-violation", "NoReqInst": "instance-required"}
 V_OPTS = [0, PRESENT, NO_STATE, MULTI, OPER, NO_STATE | MULTI, NO_STATE | PRESENT, OPER | MULTI]
 
 
@@ -74,9 +75,36 @@ class Case:
         self.base = (info or {}).get("opts", 0)
 
 
-def features(s):
-    """schema features the finding predicates look at"""
+def _case_path(sn):
+    """the (choice, case) pairs around a data node, up to its data parent"""
+    out, p = [], sn.parent
+    while p is not None and p.kind in ("case", "choice"):
+        if p.kind == "case":
+            out.append((p.parent, p))
+        p = p.parent
+    return out
+
+
+def _empty_np(n):
+    return n.sn.kind == "container" and not n.sn.presence and all(_empty_np(k) for k in n.kids)
+
+
+def _empty_np_next_to_other_case(forest):
+    """some sibling list holds a non-presence container without explicit descendants and a node of ANOTHER case of one of its choices"""
+    for n in forest:
+        if _empty_np(n):
+            mine = dict((id(ch), ca) for ch, ca in _case_path(n.sn))
+            for m in forest:
+                if m is not n and any(id(ch) in mine and mine[id(ch)] is not ca for ch, ca in _case_path(m.sn)):
+                    return True
+    return any(_empty_np_next_to_other_case(n.kids) for n in forest if n.kids)
+
+
+def features(s, t=None):
+    """schema (and, with `t`, instance) features the finding predicates look at"""
     f = set()
+    if t is not None and not isinstance(s, vc.ReplaySchema) and _empty_np_next_to_other_case(t):
+        f.add("empty-np-container-next-to-other-case")
     for n in s.nodes:
         for u in getattr(n, "uniques", []):
             for leaf in u:
@@ -108,6 +136,8 @@ def classify(component, what, case):
         return "F176"
     if law in ("iff-rejected", "tag") and case.get("impl_kind") == "NoMax" and "leaflist-more-defaults-than-max" in feat:
         return "F320"
+    if law in ("iff-rejected", "tag") and case.get("impl_kind") == "DupCase" and "empty-np-container-next-to-other-case" in feat:
+        return "F321"
     return None
 
 
@@ -122,6 +152,12 @@ def run(cx, nsch=None, nnest=None, nfam=None):
     schemas, cases = [], load_corpus(cx)
     witness_f320(cx, cases)
     compiler_guarantee(cx)
+    # F321 witness (an empty non-presence container of one case next to data of another case), one more case on every run: the
+    # unrepaired lyd_validate_cases rejects it (DupCase) and so does the model (Quirks.casesCountDefault read off the source), the
+    # specification is satisfied -> law iff fails, classify() names F321; repaired: both accept, the container is removed
+    s321, t321 = vg.witness_f321()
+    s321._origin = "witness-F321"
+    cases.append(Case(s321, t321, None, None, cx.sub_rng("f321")))
     nnest = cx.n(30, 150) if nnest is None else nnest
     # directed families (validgen.FAMILIES): `nfam` schemas of each, one template per construct of the full schema language
     fams = [f for f in vg.FAMILIES if f[0] not in vg.DISABLED_FAMILIES]
@@ -227,8 +263,44 @@ XP_WHEN_CONTINUE = False
 XP_WHEN_EMPTY_NP = False
 
 
+XP_SPECX = True
+
+
+def has_when(s):
+    return any(getattr(n, "when", None) for n in s.nodes)
+
+
+def xp_laws(cx, c, ri, spec):
+    """iff / tag / apptag of eval_case for a case of the xpath family; libyang's kind Other (a must that cannot be evaluated) counts as NoMust"""
+    for o in xp_opts(c.s):
+        r = ri.get("x%d.%d" % (c.k, o), ["err", "NoReply"])
+        if r[0] != "ok" or o & OPER:
+            continue
+        sp = spec.get("p%d.%d" % (c.k, o & ~(MULTI | OPER)), ["err", "NoReply"])
+        if sp[0] != "ok":
+            cx.notes.append("specx op failed: %s" % " ".join(sp[:3]))
+            cx.dist["xpath-law:specx failed"] += 1
+            continue
+        viol = set(sp[2:])
+        accepted = r[1] == "valid"
+        cx.count(("xplaw", c.s.name, tg.tok(c.t), o), True, "xpath-law:" + ("accept" if accepted else "reject"))
+        if accepted and viol:
+            cx.fail(COMP, "libyang accepts an instance that violates the schema: " + ",".join(sorted(viol)), payload(c, "iff-accepted", opts=o, spec=sorted(viol)))
+        elif not accepted:
+            k, tag, path = first_err(r)
+            k2 = "NoMust" if k == "Other" else k
+            if not viol:
+                cx.fail(COMP, "libyang rejects an instance that satisfies every constraint of the schema (%s)" % k,
+                        payload(c, "iff-rejected", opts=o, impl_kind=k, impl_path=path))
+            elif k2 not in viol:
+                cx.fail(COMP, "the reported error (%s) is not a constraint the instance violates (%s)" % (k, ",".join(sorted(viol))),
+                        payload(c, "tag", opts=o, impl_kind=k, spec=sorted(viol)))
+            elif k != "Other" and tag != APPTAG.get(k):
+                cx.fail(COMP, "error-app-tag %s on a %s error (RFC 7950: %s)" % (tag, k, APPTAG.get(k)), payload(c, "apptag", opts=o, impl_kind=k))
+
+
 def xp_opts(s):
-    if XP_WHEN_CONTINUE or not any(getattr(n, "when", None) for n in s.nodes):
+    if XP_WHEN_CONTINUE or not has_when(s):
         return XP_OPTS
     return [0, PRESENT]
 XP_OPTS = [0, PRESENT, MULTI, OPER]
@@ -287,6 +359,18 @@ def xpath_family(cx, nsch=None, verbose=0):
         h = ri.get("S%d" % i, ["err", "NoReply"])
         if h[0] != "ok":
             cx.fail(COMP, "a schema of the xpath family does not compile: " + " ".join(h[:2]), dict(vc.schema_payload(s), law="xpath-compile"))
+    # (S) laws iff / tag against the specification extended by must / leafref (model op `specx`, same arguments as `spec`; it knows no
+    # `when`, so only for schemas without one)
+    specl = []
+    for c in cases:
+        if XP_SPECX and not has_when(c.s):
+            d, x = tg.hx(c.s.dsl()), tg.hx(c.s.xdsl())
+            for o in sorted(set(o & ~(MULTI | OPER) for o in xp_opts(c.s))):
+                specl.append("p%d.%d %s specx %s %s %d %s" % (c.k, o, COMP, d, x, o, tg.tok(c.t)))
+    spec = cx.run_model(vc.heads(schemas) + specl) if specl else {}
+    for c in cases:
+        if XP_SPECX and not has_when(c.s):
+            xp_laws(cx, c, ri, spec)
     mix = collections.Counter()
     for c in cases:
         a = ri.get("x%d.0" % c.k, ["err", "NoReply"])
@@ -392,7 +476,7 @@ def operations(cx, cases):
     rng = cx.sub_rng("ops")
     pick = [c for c in cases if getattr(c.s, "yang", None) and not isinstance(c.s, vc.ReplaySchema)
             and c.kind not in ("state-node", "missing-key") and not any(getattr(n, "when", None) for n in c.s.nodes)
-            and getattr(c.s, "_origin", None) != "witness-F320"]       # F320 is recorded for datastore validation (law iff)
+            and getattr(c.s, "_origin", None) not in ("witness-F320", "witness-F321")]       # F320 is recorded for datastore validation (law iff)
     rng.shuffle(pick)
     pick = pick[:cx.n(1500, 12000)]
     cx.rule("ops: %d of the instances above (valid and singly mutated) sent as rpc input, rpc output (reply) and notification content, XML "
@@ -558,7 +642,7 @@ def first_err(reply):
 
 
 def payload(c, law, **kw):
-    p = {"law": law, "mutation": c.kind, "info": c.info, "opts": kw.pop("opts", c.base), "features": features(c.s), "dump": tg.tok(c.t),
+    p = {"law": law, "mutation": c.kind, "info": c.info, "opts": kw.pop("opts", c.base), "features": features(c.s, c.t), "dump": tg.tok(c.t),
          "dump_sh": tg.tok(c.sh), "doc_sh": tg.tok(c.doc_sh), "xml": tg.hx(vg.render_xml(c.s, c.t)), "json": tg.hx(vg.render_json(c.s, c.t)),
          "xml_sh": tg.hx(vg.render_xml(c.s, c.doc_sh)), "json_sh": tg.hx(vg.render_json(c.s, c.doc_sh)),
          "instance_text": tg.pretty(c.s, c.t)[:3000]}
